@@ -2,6 +2,7 @@
 pub mod core;
 pub mod c01;
 pub mod c03;
+pub mod c04;
 pub mod c12;
 pub mod mutate;
 pub mod pipeline;
@@ -27,6 +28,7 @@ pub fn registry() -> Vec<Property> {
     vec![
         Property { id: "C01", gen: c01::gen, exec: c01::exec, shrink: c01::shrink, runs: (1500, 40000) },
         Property { id: "C03", gen: c03::gen, exec: c03::exec, shrink: c03::shrink, runs: (60, 900) },
+        Property { id: "C04", gen: c04::gen, exec: c04::exec, shrink: c04::shrink, runs: (160, 2500) },
         Property { id: "C12", gen: c12::gen, exec: c12::exec, shrink: c12::shrink, runs: (3000, 60000) },
     ]
 }
